@@ -143,10 +143,34 @@ thread_local! {
     pub static TRACED: Cell<bool> = const { Cell::new(false) };
 }
 
+thread_local! {
+    /// when present, `run_search` uses (and keeps) this engine instead of a fresh one: whatever an
+    /// engine carries from one search to the next (statistics today; tables, hints, caches in a
+    /// future version) then takes part in the following searches, as in a played game
+    static PERSISTENT: std::cell::RefCell<Option<Engine>> = const { std::cell::RefCell::new(None) };
+    /// the searches made so far with the persistent engine (fen, expiry poll, positional), for replay files
+    static REUSE_LOG: std::cell::RefCell<Vec<(String, u64, bool)>> = const { std::cell::RefCell::new(Vec::new()) };
+}
+
+/// Run `f` with one engine shared by all the searches it makes.
+pub fn with_persistent_engine<R>(f: impl FnOnce() -> R) -> R {
+    PERSISTENT.with(|p| *p.borrow_mut() = Some(Engine::default()));
+    REUSE_LOG.with(|l| l.borrow_mut().clear());
+    let r = f();
+    PERSISTENT.with(|p| *p.borrow_mut() = None);
+    REUSE_LOG.with(|l| l.borrow_mut().clear());
+    r
+}
+
 pub fn run_search(board: &Board, tf: &ThreeFold, expire_at: u64, positional: bool) -> Outcome {
     let _ = verif::take_events();
     let t = CountingTimeout::new(expire_at);
-    let mut engine = Engine::default();
+    let kept = PERSISTENT.with(|p| p.borrow_mut().take());
+    let reuse = kept.is_some();
+    if reuse {
+        REUSE_LOG.with(|l| l.borrow_mut().push((board.to_string(), expire_at, positional)));
+    }
+    let mut engine = kept.unwrap_or_default();
     engine.positional = positional;
     let r = if TRACED.with(|f| f.get()) {
         catch_unwind(AssertUnwindSafe(|| tracing::subscriber::with_default(Sink, || engine.search(board, tf, &t))))
@@ -154,6 +178,9 @@ pub fn run_search(board: &Board, tf: &ThreeFold, expire_at: u64, positional: boo
         catch_unwind(AssertUnwindSafe(|| engine.search(board, tf, &t)))
     };
     let events = verif::take_events();
+    if reuse {
+        PERSISTENT.with(|p| *p.borrow_mut() = Some(engine));
+    }
     let mut runaway = false;
     let result = match r {
         Ok((m, s)) => Ok((m.map(mv_back), s)),
@@ -320,6 +347,10 @@ fn replay_of(ep: &EnginePos, k: u64, positional: bool, with_tf: bool) -> J {
         .set("expire_at_poll", k)
         .set("positional", positional)
         .set("history_fens", if with_tf { ep.history.iter().map(|p| p.to_fen()).collect::<Vec<_>>() } else { vec![] })
+        .set(
+            "engine_reuse_log",
+            REUSE_LOG.with(|l| l.borrow().iter().map(|(f, k, p)| format!("{k} {} {f}", *p as u8)).collect::<Vec<_>>()),
+        )
 }
 
 fn threefold_from(hist: &[Position]) -> ThreeFold {
@@ -502,6 +533,47 @@ pub fn c11(c: &mut Collector, seed: u64, shard: u64, nshards: u64, thorough: boo
             );
         }
     }
+    // games played with ONE engine: each search inherits whatever the engine kept from the searches
+    // before it. Generous and tiny limits alternate in pairs, so that a search cut short inside its
+    // first pass follows a long search of the position two plies earlier (for both parities).
+    {
+        let mut grng = Rng::new(mix3(seed, shard, 0x6A3E));
+        let n_games = ((if thorough { 160.0 } else { 36.0 }) * scale).max(2.0) as usize;
+        for g in 0..n_games {
+            let theme = [Theme::Promo, Theme::PawnRace, Theme::Promo, Theme::Sparse, Theme::MatingNet, Theme::Mid][g % 6];
+            let Some(start) = workload::random_placement(&mut grng, theme, false) else { continue };
+            if start.chess_root_ok().is_err() {
+                continue;
+            }
+            c.count("engine-reuse-games");
+            with_persistent_engine(|| {
+                let mut pos = start.clone();
+                for ply in 0..12usize {
+                    let legal = pos.legal_moves();
+                    if legal.is_empty() || pos.half >= 100 {
+                        break;
+                    }
+                    let Ok(board) = real::parse(&pos.to_fen()) else { break };
+                    let k = match ply % 4 {
+                        0 | 1 => 1500 + grng.below(1500),
+                        2 => grng.below(11),
+                        _ => grng.below(4),
+                    };
+                    let ep = EnginePos { label: "engine-reuse-game", pos: pos.clone(), history: vec![] };
+                    c.count("engine-reuse-searches");
+                    let o = judge_c11(c, &ep, &board, &ThreeFold::new(), false, &legal, k, false);
+                    let chosen = match &o.result {
+                        Ok((Some(m), _)) if legal.contains(m) => *m,
+                        _ => *grng.pick(&legal),
+                    };
+                    if chosen.promo.is_some() {
+                        c.tag("engine-reuse:promotion-played");
+                    }
+                    pos = pos.apply(chosen);
+                }
+            });
+        }
+    }
     c.add("traced-log-bytes", SINK_BYTES.load(std::sync::atomic::Ordering::Relaxed));
     // fixed terminal and clock positions (S10a: depth counter on passes that cost one poll)
     if shard == 0 {
@@ -629,6 +701,43 @@ pub fn c12(c: &mut Collector, seed: u64, shard: u64, nshards: u64, thorough: boo
             c.tag("small-material-capture-mate");
         }
         c12_one(c, ep, pi, seed, shard, budget);
+    }
+    // the same oracle inside a game: one engine first searches the position two plies (and one ply)
+    // before the mate in one, then the mate-in-one position itself; and in the other order (a
+    // take-back). Anything the engine keeps between searches must not falsify the report.
+    {
+        let mut rrng = Rng::new(mix3(seed, shard, 0x12E5));
+        let limit = if thorough { 240 } else { 50 };
+        let mut done = 0usize;
+        for (pi, ep) in positions.iter().enumerate() {
+            if done >= limit {
+                break;
+            }
+            if mating_moves(&ep.pos).is_empty() || ep.pos.half >= 98 {
+                continue;
+            }
+            let Some((p1, _)) = workload::predecessor(&mut rrng, &ep.pos) else { continue };
+            let Some((p2, _)) = workload::predecessor(&mut rrng, &p1) else { continue };
+            let (Ok(b1), Ok(b2)) = (real::parse(&p1.to_fen()), real::parse(&p2.to_fen())) else { continue };
+            done += 1;
+            c.count("engine-reuse-mate-lines");
+            let warm = 60_000u64;
+            let e2 = EnginePos { label: "engine-reuse-two-plies-before-mate", pos: p2.clone(), history: vec![] };
+            let e1 = EnginePos { label: "engine-reuse-one-ply-before-mate", pos: p1.clone(), history: vec![] };
+            let em = EnginePos { label: "engine-reuse-mate", pos: ep.pos.clone(), history: vec![] };
+            // forwards: the game reaches the mate
+            with_persistent_engine(|| {
+                let _ = run_search(&b2, &ThreeFold::new(), warm, false);
+                let _ = run_search(&b1, &ThreeFold::new(), warm, false);
+                c12_one(c, &em, pi * 4, seed, shard, budget);
+            });
+            // backwards: a take-back after the mate was seen
+            with_persistent_engine(|| {
+                c12_one(c, &em, pi * 4 + 1, seed, shard, budget);
+                c12_one(c, &e1, pi * 4 + 1, seed, shard, warm);
+                c12_one(c, &e2, pi * 4 + 1, seed, shard, warm);
+            });
+        }
     }
 }
 
@@ -899,13 +1008,46 @@ pub fn replay(c: &mut Collector, prop: &str, r: &J) -> i32 {
     let Ok(board) = real::parse(fen) else { return 2 };
     let tf = threefold_from(&hist);
     let legal = p.legal_moves();
+    // a case found with a persistent engine: repeat the searches that engine had made before
+    let log: Vec<(u64, bool, String)> = r
+        .get("engine_reuse_log")
+        .and_then(|x| x.as_arr())
+        .map(|a| {
+            a.iter()
+                .filter_map(|e| {
+                    let t = e.as_str()?;
+                    let mut it = t.splitn(3, ' ');
+                    Some((it.next()?.parse().ok()?, it.next()? == "1", it.next()?.to_string()))
+                })
+                .collect()
+        })
+        .unwrap_or_default();
+    if !log.is_empty() {
+        println!("replaying {} earlier search(es) of the same engine first", log.len());
+        return with_persistent_engine(|| {
+            // the log may or may not end with the failing search itself; everything before the last
+            // entry that equals (fen, k) is warm-up
+            let last = log.iter().rposition(|(kk, pp, f)| *kk == k && *pp == positional && f == fen).unwrap_or(log.len());
+            for (kk, pp, f) in &log[..last] {
+                if let Ok(b) = real::parse(f) {
+                    let _ = run_search(&b, &ThreeFold::new(), *kk, *pp);
+                }
+            }
+            replay_inner(c, prop, &ep, &board, &tf, !hist.is_empty(), &legal, k, positional, fen)
+        });
+    }
+    replay_inner(c, prop, &ep, &board, &tf, !hist.is_empty(), &legal, k, positional, fen)
+}
+
+#[allow(clippy::too_many_arguments)]
+fn replay_inner(c: &mut Collector, prop: &str, ep: &EnginePos, board: &Board, tf: &ThreeFold, with_tf: bool, legal: &[Mv], k: u64, positional: bool, fen: &str) -> i32 {
     match prop {
         "C11" => {
-            let o = judge_c11(c, &ep, &board, &tf, !hist.is_empty(), &legal, k, positional);
+            let o = judge_c11(c, ep, board, tf, with_tf, legal, k, positional);
             println!("search({fen}, expire at poll {k}) -> {:?}; commits {:?}", o.result.as_ref().map(|(m, s)| (m.map(|x| x.uci()), score_str(*s))), o.commits().iter().map(|x| (x.0, score_str(x.1))).collect::<Vec<_>>());
         }
-        "C12" => c12_one(c, &ep, if positional { 3 } else { 1 }, 1, 0, k),
-        _ => c13_one(c, &ep, k),
+        "C12" => c12_one(c, ep, if positional { 3 } else { 1 }, 1, 0, k),
+        _ => c13_one(c, ep, k),
     }
     for v in &c.violations {
         println!("VIOLATION property={prop}\n  {}/{}: {}", v.kind, v.signature, v.detail);
